@@ -95,8 +95,18 @@ def static_hazard(rng):
     """class-level initialisation orders that an interpreter can get fatally wrong: a generic class whose static creates its own
     specialisation, two generic classes whose statics create each other, statics reading statics of classes declared later, static and
     field initialisers that fail at run time (the failure must be a located diagnostic)"""
-    k = rng.randrange(13)
+    k = rng.randrange(16)
     t = rng.choice(["int", "string", "Item", "float"])
+    if k >= 13:
+        # methods, functions and fields named like built-in gates, called with their own arity from inside and outside the class:
+        # whatever the front end decides (accept or reject), running an accepted program must not crash
+        g = rng.choice(["h", "x", "y", "z", "rx", "ry", "rz", "cx"])
+        call = rng.choice(["%s();" % g, "%s(1);" % g, "%s(1, 2);" % g, "int r = %s(); echo(r);" % g, "this.%s();" % g])
+        outside = rng.choice(["k.%s();" % g, "echo(k.go());", "k.go();"])
+        params = rng.choice(["", "int a", "int a, int b"])
+        return ("class K { public int n = 1; public constructor() -> K = default; public function %s(%s) -> int { n = n + 1; return n; }\n"
+                "  public function go() -> int { %s return n; } }\n"
+                "function main() -> void { K k = new K(); %s echo(k.n); }" % (g, params, call, outside))
     if k >= 10:
         # array fields without a size, sized by a named constant, sized zero: objects of such classes are created, used, dropped
         elem = rng.choice(["qubit", "int", "bit", "string", "float"])
@@ -195,6 +205,14 @@ def run(chk):
         progs.append((src, "error-in-" + where))
     for _ in range(120 if chk.thorough else 24):
         progs.append((static_hazard(rng), "static-hazard"))
+    # members named like built-in gates: every gate x own arity x call form, inside and outside the class
+    for g in ["h", "x", "y", "z", "rx", "ry", "rz", "cx"]:
+        for params in ["", "int a", "int a, int b"]:
+            for ret, body in (("void", "n = n + 1;"), ("int", "n = n + 1; return n;")):
+                for call in ["%s();" % g, "%s(1);" % g, "%s(1, 2);" % g, "this.%s();" % g]:
+                    progs.append(("class K { public int n = 1; public constructor() -> K = default; public function %s(%s) -> %s { %s }\n"
+                                  "  public function go() -> void { %s echo(\"went \" + n); } }\n"
+                                  "function main() -> void { K k = new K(); k.go(); echo(k.n); }" % (g, params, ret, body, call), "gate-named"))
     import c18 as _c18
     for _ in range(60 if chk.thorough else 6):
         progs.append((_c18.stateful_program(rng), "stateful"))
